@@ -13,9 +13,10 @@ class Node:
         return 'N%d:%s@%d%s' % (self.id, self.kind, self.line, (':' + str(self.label)) if self.label is not None else '')
 
 class Ctx:
-    __slots__ = ('brk', 'cont', 'sw')
-    def __init__(self, brk=None, cont=None, sw=None):
+    __slots__ = ('brk', 'cont', 'sw', 'ret')
+    def __init__(self, brk=None, cont=None, sw=None, ret=None):
         self.brk = brk; self.cont = cont; self.sw = sw
+        self.ret = ret      # inside an inlined (non-tail) helper call: where its `return` continues
 
 class CFG:
     def __init__(self, body, prune_constants=True):
@@ -108,13 +109,13 @@ class CFG:
             return c
         if k == 'WhileStmt':
             j = self._new('join')
-            b = self._build(s.get('body'), j, Ctx(nxt, j, ctx.sw))
+            b = self._build(s.get('body'), j, Ctx(nxt, j, ctx.sw, ctx.ret))
             c = self._cond(s.get('cond'), b, nxt)
             self._link(j, c)
             return j
         if k == 'DoStmt':
             jb = self._new('join'); jc = self._new('join')
-            b = self._build(s.get('body'), jc, Ctx(nxt, jc, ctx.sw))
+            b = self._build(s.get('body'), jc, Ctx(nxt, jc, ctx.sw, ctx.ret))
             self._link(jb, b)
             c = self._cond(s.get('cond'), jb, nxt)
             self._link(jc, c)
@@ -122,13 +123,13 @@ class CFG:
         if k == 'ForStmt':
             j = self._new('join')
             inc = self._build(s.get('inc'), j, ctx) if s.get('inc') is not None else j
-            b = self._build(s.get('body'), inc, Ctx(nxt, inc, ctx.sw))
+            b = self._build(s.get('body'), inc, Ctx(nxt, inc, ctx.sw, ctx.ret))
             c = self._cond(s.get('cond'), b, nxt) if s.get('cond') is not None else b
             self._link(j, c)
             return self._build(s.get('init'), j, ctx) if s.get('init') is not None else j
         if k == 'CXXForRangeStmt':
             j = self._new('join')
-            b = self._build(s.get('body'), j, Ctx(nxt, j, ctx.sw))
+            b = self._build(s.get('body'), j, Ctx(nxt, j, ctx.sw, ctx.ret))
             n = self._new('cond', ast={'k': 'RangeHasNext', 'l': s.get('l', 0), 'range': s.get('range'), 'var': s.get('var')})
             self._edge(n, True, b); self._edge(n, False, nxt)
             self._link(j, n)
@@ -139,7 +140,7 @@ class CFG:
         if k == 'SwitchStmt':
             sw = self._new('switch', ast=s.get('cond'))
             rec = {'cases': [], 'default': None}
-            self._build(s.get('body'), nxt, Ctx(nxt, ctx.cont, rec))
+            self._build(s.get('body'), nxt, Ctx(nxt, ctx.cont, rec, ctx.ret))
             covered = []
             for (lo, hi, target, cs) in rec['cases']:
                 self._edge(sw, ('case', lo, hi), target)
@@ -171,8 +172,24 @@ class CFG:
         if k == 'ContinueStmt':
             return ctx.cont if ctx.cont is not None else nxt
         if k == 'ReturnStmt':
+            if ctx.ret is not None:
+                # `return` of a helper inlined in the middle of its caller (see inline.py): control continues after the call
+                if s.get('val') is None: return ctx.ret
+                n = self._new('stmt', ast=s['val']); n.line = s.get('l', 0)
+                self._link(n, ctx.ret)
+                return n
             n = self._new('return', ast=s)
             self._link(n, self.exit_return)
+            return n
+        if k == 'InlinedCall':
+            # body of a helper substituted for its call; tail calls return from the caller
+            # the call itself stays visible as a statement node (rules that look for the helper by name still find it), followed by its body
+            if s.get('tail'):
+                b = self._build(s.get('body'), ctx.ret if ctx.ret is not None else self.exit_return, Ctx(ret=ctx.ret))
+            else:
+                b = self._build(s.get('body'), nxt, Ctx(ret=nxt))
+            n = self._new('stmt', ast=s.get('call')); n.line = s.get('l', 0)
+            self._link(n, b)
             return n
         if k == 'GotoStmt':
             n = self._new('goto', ast=s, label=s.get('label'))
